@@ -4,3 +4,5 @@ histories in which the client program changes between engine lifetimes (Props/C0
 -/
 import LLBuild.Props.C01
 import LLBuild.Props.C01Gen
+import LLBuild.Props.EngineImplSoundGen
+import LLBuild.Props.EngineImplSound
